@@ -246,63 +246,71 @@ func c32errClass(err error) string {
 
 // c32dec runs the decoder named by kind on b; returns the canonical answer.
 func c32dec(kind []string, b []byte) string {
-	res := func(err error, val string, n int, withN bool) string {
+	ans, _ := c32decKeep(kind, b)
+	return ans
+}
+
+// c32decKeep runs the decoder named by kind on b; returns the canonical answer and, on success, a
+// closure that re-prints the SAME decoded Go value later (to detect values that alias recycled
+// buffers and change after subsequent decodes).
+func c32decKeep(kind []string, b []byte) (string, func() string) {
+	res := func(err error, val func() string, n int, withN bool) (string, func() string) {
 		if err != nil {
-			return "err " + c32errClass(err)
+			return "err " + c32errClass(err), nil
 		}
 		if withN {
-			return fmt.Sprintf("ok %s %d", val, n)
+			return fmt.Sprintf("ok %s %d", val(), n), val
 		}
-		return "ok " + val
+		return "ok " + val(), val
 	}
 	switch kind[0] {
 	case "vu":
 		var v varint.Varint
 		n, err := v.Unmarshal(b)
-		return res(err, strconv.FormatUint(uint64(v), 10), n, true)
+		return res(err, func() string { return strconv.FormatUint(uint64(v), 10) }, n, true)
 	case "vr":
 		var v varint.Varint
 		rd := bytes.NewReader(b)
 		err := v.Read(rd)
-		return res(err, strconv.FormatUint(uint64(v), 10), len(b)-rd.Len(), true)
+		return res(err, func() string { return strconv.FormatUint(uint64(v), 10) }, len(b)-rd.Len(), true)
 	case "ns":
 		var ns namespace.Namespace
 		n, err := ns.Unmarshal(b)
-		return res(err, c32pNs(ns), n, true)
+		return res(err, func() string { return c32pNs(ns) }, n, true)
 	case "pa":
 		var ps parameter.Parameters
 		n, err := ps.Unmarshal(int(c32u64(kind[1])), b)
-		return res(err, c32pParams(ps), n, true)
+		return res(err, func() string { return c32pParams(ps) }, n, true)
 	case "pr":
 		var ps property.Properties
 		err := ps.Unmarshal(b)
-		return res(err, c32pProps(ps), 0, false)
+		return res(err, func() string { return c32pProps(ps) }, 0, false)
 	case "msg":
 		rd := bytes.NewReader(b)
 		m, err := controlmessage.Read(rd)
-		if err != nil {
-			return res(err, "", 0, true)
-		}
-		return res(nil, c32pMsg(m), len(b)-rd.Len(), true)
+		return res(err, func() string { return c32pMsg(m) }, len(b)-rd.Len(), true)
 	case "hdr":
 		var h Header
 		rd := bytes.NewReader(b)
 		err := h.read(rd)
-		return res(err, c32pHeader(h), len(b)-rd.Len(), true)
+		return res(err, func() string { return c32pHeader(h) }, len(b)-rd.Len(), true)
 	case "obj":
 		hd := Header{Properties: kind[1] == "1"}
 		var o Object
 		rd := bytes.NewReader(b)
 		err := o.read(rd, &hd)
-		return res(err, c32pObject(o), len(b)-rd.Len(), true)
+		return res(err, func() string { return c32pObject(o) }, len(b)-rd.Len(), true)
 	case "sg":
 		var s SubGroup
 		rd := bytes.NewReader(b)
 		err := s.Read(rd)
-		return res(err, c32pSubGroup(s), len(b)-rd.Len(), true)
+		return res(err, func() string { return c32pSubGroup(s) }, len(b)-rd.Len(), true)
 	}
 	panic("verif: bad decoder kind " + kind[0])
 }
+
+// values decoded by `keep` ops since the last `reset`, re-printed by `recheck`
+var c32kept []func() string
 
 func c32parseObjects(f []string) []Object {
 	var out []Object
@@ -378,8 +386,24 @@ func verifC32Exec(op string) string {
 		c32cur.WriteAt([]byte(op), 0) //nolint:errcheck
 	}
 	switch f[0] {
-	case "reset": // ops are independent; `reset` only delimits cases for the replay shrinker
+	case "reset": // starts a new history: forget the retained values
+		c32kept = nil
 		return "ok"
+	case "keep": // decode and RETAIN the decoded value (as a session keeps a SUBSCRIBE / its token)
+		in := c32parseB(f[len(f)-1])
+		// the input buffer itself is scrubbed afterwards: a decoder may alias ITS OWN input only if the
+		// caller owns it; stream decoders (msg, hdr, obj, sg) read from a reader and must copy
+		ans, rp := c32decKeep(f[1:len(f)-1], in)
+		if rp != nil {
+			c32kept = append(c32kept, rp)
+		}
+		return ans
+	case "recheck": // the retained values must still print as they did when they were decoded
+		parts := []string{strconv.Itoa(len(c32kept))}
+		for _, rp := range c32kept {
+			parts = append(parts, rp())
+		}
+		return strings.Join(parts, " | ")
 	case "vi":
 		v := varint.Varint(c32u64(f[1]))
 		b := v.Marshal()
@@ -750,7 +774,53 @@ func c32decOps(r *verifutil.Rand, kind []string, hexTok string) []string {
 }
 
 func verifC32Gen(r *verifutil.Rand, i int, thorough bool) []string {
+	if i >= 65*3+256 && r.Intn(8) == 0 {
+		return append([]string{"reset"}, c32history(r)...)
+	}
 	return append([]string{"reset"}, verifC32Gen1(r, i, thorough)...)
+}
+
+// c32history: decode and retain a few values, run other codec traffic, then re-check the retained
+// values (a decoded message must not change when later messages are decoded or encoded).
+func c32history(r *verifutil.Rand) []string {
+	var ops []string
+	nkeep := 1 + r.Intn(3)
+	for k := 0; k < nkeep; k++ {
+		var b []byte
+		var back []string
+		tok := "enc msg " + c32tokMsg(r)
+		if r.Intn(3) != 0 { // messages that carry an authorization token / strings / namespaces
+			tok = fmt.Sprintf("enc msg sub %d %s %s %d:%d:%s", c32randU64(r), c32tokNs(r), c32tokB(r, 40), 3, c32randU64(r),
+				verifutil.Hex(r.Bytes(1+r.Intn(24))))
+			if r.Bool() {
+				tok = fmt.Sprintf("enc msg pub %d %s %s %d %d:%d:%s %s", c32randU64(r), c32tokNs(r), c32tokB(r, 40), c32randU64(r), 3,
+					c32randU64(r), verifutil.Hex(r.Bytes(1+r.Intn(24))), c32tokProps(r))
+			}
+		}
+		if r.Intn(5) == 0 {
+			tok = c32encOp(r)
+		}
+		func() {
+			defer func() { recover() }() //nolint:errcheck
+			b, back = c32enc(strings.Fields(tok)[1:])
+		}()
+		if back == nil || len(b) > 4000 || back[0] == "pr" {
+			continue
+		}
+		ops = append(ops, "keep "+strings.Join(back, " ")+" "+verifutil.Hex(b))
+		// traffic in between
+		for t := r.Intn(3); t > 0; t-- {
+			ops = append(ops, verifC32Gen1(r, 1000000, false)...)
+		}
+	}
+	for t := 1 + r.Intn(3); t > 0; t-- {
+		if r.Bool() {
+			ops = append(ops, "enc msg "+c32tokMsg(r))
+		} else {
+			ops = append(ops, verifC32Gen1(r, 1000000, false)...)
+		}
+	}
+	return append(ops, "recheck")
 }
 
 func verifC32Gen1(r *verifutil.Rand, i int, thorough bool) []string {
